@@ -3,9 +3,9 @@ Engine A: for d=2..6 the slot table of EvolutionProxy::compute, the sin/cos tabl
 PrepareEvolve(buffer,t) and the table of FastEvolutionProxy::compute fed with that buffer are
 extracted and compared with exp(iHt) A exp(-iHt) computed over the basis of C01, H being the
 diagonal part of the operator vector."""
-from guarded import same, explain
+from guarded import same, explain, generic_leaf
 from astdb import AnalysisBroken
-from interp import Interp, Obj, Cell, Thrown, Ptr, Region, UNDEF
+from interp import Interp, Obj, Cell, Thrown, Ptr, Region, UNDEF, ITE
 from kernels import make_suv
 from poly import Poly, CPoly, apply_func, mat_zero, atom_arg
 import basis
@@ -100,7 +100,7 @@ def run_prepare(db, d, nparams, args_fn, prefix='b'):
     f = db.one('SUNalg', 'squids::SU_vector::PrepareEvolve', nparams)
     h, _ = make_suv('H', d, prefix)
     npair = d * (d - 1) // 2
-    buf = Region('buffer', 2 * npair, None, 'heap')
+    buf = Region('buffer', 2 * npair, lambda k: Poly.var('BUFOLD%d' % k), 'heap')  # what the caller's buffer held before
     hooks = proxies.ProxyHooks()
     writes = {}
     orig = hooks.on_write
@@ -161,14 +161,20 @@ def check_prepare_and_fast(db, rep, tier):
             n_pre += 1
             site = 'PrepareEvolve/%d/pair%d' % (d, k)
             wc, ws = writes.get(k, []), writes.get(npair + k, [])
-            if len(wc) != 1 or len(ws) != 1:
+            if len(wc) < 1 or len(ws) < 1:
                 table_ok = False
-                rep.fail('A.evol.pre', site, (wc + ws + [where])[0], 'CX[%d] and SX[%d] written exactly once' % (k, k),
+                rep.fail('A.evol.pre', site, (wc + ws + [where])[0], 'CX[%d] and SX[%d] written' % (k, k),
                          'CX written %d times, SX written %d times' % (len(wc), len(ws)), f['name'])
                 continue
             c, s = buf.cell(k).value, buf.cell(npair + k).value
-            fc = func_arg(c, 'cos') if isinstance(c, Poly) else None
-            fs = func_arg(s, 'sin') if isinstance(s, Poly) else None
+            # special-cased arguments (a shortcut for t == 0, say) give guarded entries: the phase is read off the generic
+            # arm, and the whole guarded entry must equal cos / sin of that phase for all inputs
+            gc, gs = generic_leaf(c), generic_leaf(s)
+            fc = func_arg(gc, 'cos') if isinstance(gc, Poly) else None
+            fs = func_arg(gs, 'sin') if isinstance(gs, Poly) else None
+            if fc is not None and fs is not None and (isinstance(c, ITE) or isinstance(s, ITE)):
+                if not (same(c, gc) and same(s, gs)):  # the special-cased values agree with the generic formula there
+                    fc = None
             if fc is None or fs is None or fc[0] != 1 or not fc[1].equals(fs[1]):
                 table_ok = False
                 rep.fail('A.evol.pre', site, wc[0], 'CX[k]=cos(phi), SX[k]=sin(phi) of one phase phi', 'CX=%s SX=%s' % (c, s), f['name'])
